@@ -5,6 +5,7 @@ import Driver.UrlCmd
 import Driver.UspCmd
 import Driver.PunyCmd
 import Driver.PatCmd
+import Driver.AggCmd
 /-
 Model driver: same line protocol as harness/ada_harness.cpp, answered by the Lean Model/Spec.
 -/
@@ -52,6 +53,9 @@ def step (a : List String) : String :=
   | ["uspless", a, b] => cmdUspLess a b
   | ["puny_enc", a] => cmdPunyEnc a
   | ["puny_dec", a] => cmdPunyDec a
+  | ["agg.edit", st, ed, arg] => cmdAggEdit st ed arg
+  | ["agg.shape", st] => cmdAggShape st
+  | "url.model" :: rest => cmdUrlModel rest
   | "spec.canon" :: comp :: value :: proto :: hints => cmdSpecCanon comp value proto hints
   | _ => "bad-op"
 
